@@ -145,6 +145,7 @@ func (x *w22) close() { x.w.Close() }
 type w3 struct {
 	w     *ljh.Writer3
 	nsamp int
+	fixed bool
 }
 
 func new3(nsamp int) *w3 {
@@ -155,6 +156,9 @@ func (x *w3) create(path string) error { x.w.FileName = path; return x.w.CreateF
 func (x *w3) header() error            { return x.w.WriteHeader() }
 func (x *w3) record(i int) ([]byte, error) {
 	n := x.nsamp + i%3 // LJH3 records may vary in length
+	if x.fixed {
+		n = x.nsamp
+	}
 	data := make([]uint16, n)
 	for j := range data {
 		data[j] = sample(i, j)
@@ -178,6 +182,9 @@ func (x *woff) create(path string) error {
 	pd := make([]float64, x.nbases*nsamples)
 	bd := make([]float64, x.nbases*nsamples)
 	for i := range pd {
+		if x.nbases > 200 {
+			break // many coefficients: all-zero matrices keep the rendered header short
+		}
 		pd[i] = float64(i % 4)
 		bd[i] = float64(i%5) - 1
 	}
@@ -205,12 +212,93 @@ func (x *woff) record(i int) ([]byte, error) {
 func (x *woff) flush() { x.w.Flush() }
 func (x *woff) close() { x.w.Close() }
 
+func recBytes(format string, n int) int {
+	switch format {
+	case "ljh22":
+		return 16 + 2*n
+	case "ljh3":
+		return 24 + 2*n
+	default:
+		return 36 + 4*n
+	}
+}
+
+// pipeCapacity is the size of a fresh named pipe's buffer (65536 unless the system is configured otherwise).
+func pipeCapacity(dir string) int {
+	path := filepath.Join(dir, fmt.Sprintf("c07_cap_%d_%d", os.Getpid(), time.Now().UnixNano()))
+	if err := syscall.Mkfifo(path, 0o600); err != nil {
+		return 65536
+	}
+	defer os.Remove(path)
+	fd, err := syscall.Open(path, syscall.O_RDWR|syscall.O_NONBLOCK, 0)
+	if err != nil {
+		return 65536
+	}
+	defer syscall.Close(fd)
+	n, _, e := syscall.Syscall(syscall.SYS_FCNTL, uintptr(fd), 1032 /* F_GETPIPE_SZ */, 0)
+	if e != 0 || n == 0 {
+		return 65536
+	}
+	return int(n)
+}
+
+// alignN raises n until, with the reader stalled from the start, the writer goroutine comes to a halt (the
+// pipe full, a 65536-byte bufio flush blocked) holding a chunk that begins within the first 8 bytes of a
+// record.  The queue then fills behind a record boundary shifted by one chunk: a writer that hands a record
+// over in two or more Writes gets its queue full exactly between them.  (With one Write per record the
+// alignment is irrelevant.)
+func alignN(format string, n int, dir string, id int64) int {
+	capb := pipeCapacity(dir)
+	boundary := 65536 * (capb/65536 + 1)
+	first := 8 // the chunk held must begin within the first bytes of a record (OFF: within its 36-byte prefix)
+	if format == "off" {
+		first = 32
+	}
+	ok := func(hlen, nn int) bool { // (a header of a bufio buffer or more is written around the buffer)
+		return hlen < 65536 && hlen < boundary && (boundary-hlen)%recBytes(format, nn) < first
+	}
+	perN := 0 // growth of the header per unit of n (OFF: projectors and basis, 2 x 4 x 8 bytes per coefficient)
+	if format == "off" {
+		perN = 64
+	}
+	base := n
+	for tries := 0; tries < 50; tries++ {
+		hdr, err := referenceHeader(format, base, dir, id)
+		if err != nil {
+			panic(err)
+		}
+		// predict (the header text changes only when a number gains a digit), then measure
+		k := 0
+		for ; k < 40000 && len(hdr)+perN*k < 65536 && !ok(len(hdr)+perN*k, base+k); k++ {
+		}
+		if k == 0 {
+			return base
+		}
+		if !ok(len(hdr)+perN*k, base+k) {
+			return n // no such length: the case runs unaligned
+		}
+		h2, err := referenceHeader(format, base+k, dir, id)
+		if err != nil {
+			panic(err)
+		}
+		if ok(len(h2), base+k) {
+			return base + k
+		}
+		base = base + k + 1
+	}
+	return n
+}
+
+var fixedLength bool // LJH3: all records of one length (aligned cases)
+
 func mkWriter(format string, n int) recWriter {
 	switch format {
 	case "ljh22":
 		return new22(n)
 	case "ljh3":
-		return new3(n)
+		w := new3(n)
+		w.fixed = fixedLength
+		return w
 	default:
 		return newOff(n, t0)
 	}
@@ -232,6 +320,7 @@ func referenceHeader(format string, n int, dir string, id int64) ([]byte, error)
 }
 
 type pobs struct {
+	N        int    `json:"n"`
 	Header   int    `json:"header_len"`
 	Calls    int    `json:"calls"`
 	Rejected int    `json:"rejected"`
@@ -270,7 +359,11 @@ func pipeAttempt(c Case, dir string, limit time.Duration) (pipeOut, bool) {
 		out.hdrErr = herr
 		mu.Unlock()
 		i := 0
+		closed := false
 		for _, op := range c.Ops {
+			if closed {
+				break
+			}
 			switch op.Op {
 			case "B":
 				for k := 0; k < op.N; k++ {
@@ -292,10 +385,21 @@ func pipeAttempt(c Case, dir string, limit time.Duration) (pipeOut, bool) {
 				w.flush()
 			case "Y":
 				time.Sleep(time.Duration(op.N) * time.Microsecond) // only paces the burst; outcomes are judged, not predicted
+			case "K":
+				// Close while the reader stays stalled for op.N ms more (data pending behind a full pipe):
+				// a stall of any length must only delay Close, never lose the tail
+				cdone := make(chan struct{})
+				go func() { w.close(); close(cdone) }()
+				time.Sleep(time.Duration(op.N) * time.Millisecond)
+				rd.set(-1)
+				<-cdone
+				closed = true
 			}
 		}
 		rd.set(-1)
-		w.close()
+		if !closed {
+			w.close()
+		}
 		<-rd.eof
 	}()
 	select {
@@ -324,6 +428,15 @@ func runPipe(c Case) lib.Result {
 	}{"pipe", c.Fmt, c.N, c.Ops})}
 	dir, _ := os.Getwd()
 	tags := map[string]bool{"pipe": true, "pipe-" + c.Fmt: true}
+	fixedLength = c.Align
+	defer func() { fixedLength = false }()
+	if c.Align {
+		c.N = alignN(c.Fmt, c.N, dir, c.ID)
+		tags["aligned-to-record-start"] = true
+	}
+	if c.N >= 2000 || (c.Fmt == "off" && c.N >= 500) {
+		tags["long-records"] = true
+	}
 	hdr, err := referenceHeader(c.Fmt, c.N, dir, c.ID)
 	if err != nil {
 		panic(err)
@@ -334,7 +447,7 @@ func runPipe(c Case) lib.Result {
 		tags["watchdog-retry"] = true
 		out, hung = pipeAttempt(c, dir, 150*time.Second)
 	}
-	ob := pobs{Header: len(hdr), Calls: len(out.oks), Stream: len(out.stream), Hung: hung, FirstBad: -1}
+	ob := pobs{N: c.N, Header: len(hdr), Calls: len(out.oks), Stream: len(out.stream), Hung: hung, FirstBad: -1}
 	if out.hdrErr != nil {
 		// a rejected header contributes nothing: the expected stream starts with the records
 		ob.HdrErr = out.hdrErr.Error()
